@@ -10,9 +10,9 @@ PROP = "C11"
 PLAN = {"quick": 800, "thorough": 60000}
 TIMEOUT = 90
 CHUNK = 25
-CLASSES = ["ES", "NK", "ZN", "ZB", "ZF", "ZT", "ZQ", "VX"]
-ROLL_DAYS = {"ES": 8, "NK": 14, "VX": 2, "ZN": 30, "ZB": 30, "ZF": 30, "ZT": 30, "ZQ": 30}
-PRICE = {"ES": 2500.0, "NK": 20000.0, "VX": 15.0, "ZN": 120.0, "ZB": 140.0, "ZF": 115.0, "ZT": 105.0, "ZQ": 98.0}
+CLASSES = ["ES", "NK", "ZN", "ZB", "ZF", "ZT", "ZQ", "VX", "UN"]
+ROLL_DAYS = {"ES": 8, "NK": 14, "VX": 2, "ZN": 30, "ZB": 30, "ZF": 30, "ZT": 30, "ZQ": 30, "UN": 5}
+PRICE = {"ES": 2500.0, "NK": 20000.0, "VX": 15.0, "ZN": 120.0, "ZB": 140.0, "ZF": 115.0, "ZT": 105.0, "ZQ": 98.0, "UN": 60.0}
 RULE = ("seeded episodes over chains of every built-in futures class (ES, NK, ZN, ZB, ZF, ZT, ZQ, VX) built from spans and from "
         "explicit contract lists, 2-8 contracts, month offsets 0-2; grids daily / multi-day but shorter than the roll window / "
         "intraday around the roll, on the exact last-trading instants or off them; quotes for every live member, targets of "
@@ -46,7 +46,7 @@ def generate(rng, i, force=None):
     y0 = rng.choice([2005, 2012, 2018, 2019, 2024])
     if force:
         cls = force["cls"]
-    if cls == "VX":
+    if cls in ("VX", "UN"):
         step_m = 1
         m0 = rng.randint(1, 12)
     else:
@@ -92,6 +92,8 @@ def generate(rng, i, force=None):
     style = rng.choice(["daily", "daily", "multi", "intraday"])
     if cls == "VX":
         style = rng.choice(["daily", "intraday"])
+    if cls == "UN":
+        style = rng.choice(["daily", "intraday", "intraday"])      # the cut-off is at noon: steps on both sides of it on the roll day
     t = ltd[0] - timedelta(days=rng.randint(2, 12)) + timedelta(seconds=tod)
     t_end = ltd[nrolls - 1] + timedelta(days=rng.randint(1, 6))
     t_end = min(t_end, ltd[usable - 1] - timedelta(days=1))
@@ -159,6 +161,17 @@ def generate(rng, i, force=None):
                 for j in range(len(mem)):
                     if t2 < exp[j]:
                         events.append({"t": core.iso(t2), "type": "nbbo", "c": [0, lib_idx[j]], "bid": px[j] * (1 - spread / 2), "ask": px[j] * (1 + spread / 2), "id": len(events)})
+    settlement = False
+    if tod == 0 and lat_us == 0 and mingap >= 86400 and not chain_keyed and rng.random() < 0.25:
+        # settlement prices: every quote is stamped eight hours before the decision time it belongs to, and the last
+        # event of each timestep is a calendar event (no quote) stamped at the decision time itself - possibly the
+        # exact last-trading instant of the lead, which lies between the latest quote and the decision (quotes addressed
+        # to the chain itself are left out here: they are filed under the lead at their own, earlier, stamp)
+        settlement = True
+        for e in events:
+            e["t"] = core.iso(core.parse_t(e["t"]) - timedelta(hours=8))
+        for g in grid:
+            events.append({"t": core.iso(g), "type": "custom", "cls": "EvA", "tag": len(events), "id": len(events)})
     env = {
         "contracts": specs, "grid": [core.iso(g) for g in grid], "grid_input": list(range(len(grid))), "events": events,
         "latency_us": lat_us, "delay": rng.choice([0, 0, 1]), "reward": {"cls": "RewardSimpleReturn"},
@@ -208,7 +221,7 @@ def generate(rng, i, force=None):
             script.append({"op": "clock", "t": core.iso(rng.choice(grid))})
         script.append({"op": "step", "env": 0, "action": a})
     return {"kind": "epi", "envs": [env], "clock0": core.iso(grid[0]), "script": script, "prng": rng.randrange(2 ** 31),
-            "meta": {"cls": cls, "offset": offset, "style": style, "tod": tod, "explicit": explicit, "nmem": len(mem), "y0m0": [y0, m0], "lead_only": lead_only, "small": small, "chain_keyed": chain_keyed, "tiny": tiny}}
+            "meta": {"cls": cls, "offset": offset, "style": style, "tod": tod, "explicit": explicit, "nmem": len(mem), "y0m0": [y0, m0], "lead_only": lead_only, "small": small, "chain_keyed": chain_keyed, "tiny": tiny, "settlement": settlement}}
 
 
 def to_dt(x):
@@ -294,6 +307,8 @@ def execute(scenario):
                 continue
             if to_dt(now) in ltd:
                 probe("step_exactly_on_last_trading_instant")
+                if scenario["meta"].get("settlement"):
+                    probe("last_trading_instant_between_the_latest_quote_and_the_decision")
             if model_lead(st["hold_before"] and r["env_now"]) is not None and st.get("k") is not None:
                 # did the lead change between the decision (start of the step) and the execution?
                 prev_now = ep["steps"][k - 1]["now"] if k > 0 else ep["reset"]["now"]
